@@ -67,6 +67,52 @@ def shrink_phase(rep, exe_impl, exe_model):
     return f, v, len(cases)
 
 
+def gen_policy_change_case(rng):
+    """a path is versioned as append-only history (leaving a remembered position), then the configuration is rewritten
+    so that it is an ordinary included path (or the other way round), the file is rewritten as a whole and versioned
+    again: under the policy in force an ordinary path is copied whole, whatever an earlier policy left behind"""
+    import copy
+    s = wc.Script()
+    F = wc.WATCH + "/hd/notes.log"
+    first_history = rng.random() < 0.75
+    cfg_h = wc.base_cfg(deb=0, history=[wc.WATCH + "/hist.log", wc.WATCH + "/hd"])
+    cfg_o = wc.base_cfg(deb=0, history=[wc.WATCH + "/hist.log"], included=[wc.WATCH + "/inc", "d", wc.WATCH + "/hd"])
+    a, b = (cfg_h, cfg_o) if first_history else (cfg_o, cfg_h)
+    wc.setup_world(s, a)
+    s.start()
+    s.exec(3, wc.X + "/vim")
+    n = 0
+    text = ""
+    # (as a history path it is versioned once - its first slice is the whole file, so every version of this family
+    # can be judged as a plain copy)
+    for _ in range(1 if first_history else rng.randint(1, 3)):
+        n += 1
+        text += "entry %d %s\n" % (n, "x" * rng.randint(0, 30))
+        s.put(F, text)
+        s.write(3, F)
+        s.tick(1)
+        s.dump()
+        s.timeout()
+        s.dump()
+    s.config(b)
+    s.write(4, wc.CFG_PATH)
+    s.tick(1)
+    if rng.random() < 0.3:
+        s.restart()
+        s.exec(3, wc.X + "/vim")
+    # rewritten as a whole: other bytes, longer or shorter than the remembered position
+    text = "".join("rewritten line %d %s\n" % (i, "y" * rng.randint(0, 20)) for i in range(rng.randint(1, 8)))
+    s.put(F, text)
+    s.write(3, F)
+    s.tick(1)
+    s.dump()
+    s.timeout()
+    s.dump()
+    # judged as an ordinary path in both directions: a path that BECOMES history has no remembered position yet, so its
+    # first slice is the whole file as well
+    return s.text(), {"history_rels": ["hist.log"]}
+
+
 def main(rep):
     rng = random.Random(rep.seed)
     n = 200 if rep.tier == "quick" else 4000
@@ -79,12 +125,16 @@ def main(rep):
         # inside one timestamp) and across restarts
         t, m = wc.gen_history_case(rng)
         cases.append(("h%d" % i, t, m))
+    for i in range(max(20, n // 10)):
+        t, m = gen_policy_change_case(rng)
+        cases.append(("p%d" % i, t, m))
     wk.standard_main(rep, cases=cases, monitors=MON, extra=shrink_phase,
                      rule=("three files per history with sizes from {0,1,2,4095,4096,4097,12345,70000}, sendfile chunk limits {none,1000,4095,4096,4097,65536}, "
                            "and between the write and the copy: nothing, rewritten, grown, deleted, replaced by a directory, made unreadable (real EACCES: the "
                            "driver runs unprivileged); monitors: every new version equals its source byte for byte (length + hash), an abandoned copy leaves no "
                            "file and no empty directory, journal labels stored/deleted/forbidden match what appeared; a source truncated by another process at a sendfile boundary (implementation only): the version is a prefix of what the source held; plus append histories of a history path (slices of 0-60 bytes, several versions inside one "
-                           "timestamp, restarts): the versions in order concatenate to the file up to the remembered position"))
+                           "timestamp, restarts): the versions in order concatenate to the file up to the remembered position; plus a path whose policy changes between history and ordinary "
+                           "by a reload and which is then rewritten as a whole"))
 
 
 def replay(rep, path):
